@@ -49,7 +49,18 @@ func (x *Exec) floatConst(w int, f float64) *Term {
 	return x.ts.BV(math.Float64bits(f), 64)
 }
 
+// binop evaluates a binary operator; a result that the stated bounds of the path condition pin to a
+// single value is replaced by that constant (constant propagation under the path condition: keeps
+// the calendar arithmetic of package time from dragging its division chains through every query).
 func (x *Exec) binop(op token.Token, t types.Type, av, bv Value) Value {
+	r := x.binop0(op, t, av, bv)
+	if tr, ok := r.(*Term); ok && !tr.IsConst() && len(x.bounds) > 0 && !x.noFold {
+		return x.fold(tr)
+	}
+	return r
+}
+
+func (x *Exec) binop0(op token.Token, t types.Type, av, bv Value) Value {
 	ts := x.ts
 	switch op {
 	case token.EQL:
